@@ -399,6 +399,48 @@ def runtime_checks():
             for cn, a, b in (('x', xb, x), ('y', yb, y), ('z', zb, z)):
                 if not torch.allclose(a, b, rtol=0, atol=1e-12):
                     bad.append(dict(case='axis points', quantity=f'{nm} round trip, {cn}', got=a.reshape(-1).tolist(), want=b.reshape(-1).tolist()))
+        # keyword calls in any order name the same arguments as the positional call
+        import inspect
+        import itertools
+        r, th, ph = col(1.1, 2.0, 0.6), col(0.7, 1.2, 2.0), col(0.4, 1.0, 5.0)
+        fld = lambda: (r ** 2 * torch.sin(th) * torch.cos(ph), r * torch.cos(th) + ph, torch.sin(r) * th)
+        for opname in ('spherical_grad', 'spherical_div', 'spherical_curl', 'spherical_laplacian', 'spherical_vector_laplacian',
+                       'cylindrical_grad', 'cylindrical_div', 'cylindrical_curl', 'cylindrical_laplacian', 'cylindrical_vector_laplacian'):
+            op = getattr(ops, opname)
+            names = list(inspect.signature(op).parameters)
+            nf = len(names) - 3
+            args = list(fld()[:nf]) + [r, th, ph]
+            ref = op(*args)
+            ref = [ref] if torch.is_tensor(ref) else list(ref)
+            for perm in list(itertools.permutations(range(len(names))))[1::7][:6]:
+                kw = {names[i]: args[i] for i in perm}
+                got = op(**kw)
+                got = [got] if torch.is_tensor(got) else list(got)
+                if any(not torch.allclose(a.detach(), b.detach(), rtol=0, atol=1e-12) for a, b in zip(got, ref)):
+                    bad.append(dict(case='keyword call', operator=opname, keyword_order=[names[i] for i in perm],
+                                    violated='differs from the positional call with the same arguments'))
+                    break
+        # compositions stay exact: lap(lap u) and div(grad(lap u)) of u = x^2 y^2 z + x^4 agree with the Cartesian operators
+        cart = lambda x, y, z: x ** 2 * y ** 2 * z + x ** 4
+        x, y, z = col(0.7, -1.1, 0.4), col(0.5, 0.9, -1.3), col(1.2, -0.6, 0.8)
+        U = cart(x, y, z)
+        want = ops.laplacian(ops.laplacian(U, x, y, z), x, y, z).detach()
+        rs, ths, phs = [t.detach().clone().requires_grad_(True) for t in ops.cartesian_to_spherical(x.detach(), y.detach(), z.detach())]
+        us = cart(*ops.spherical_to_cartesian(rs, ths, phs))
+        ls = ops.spherical_laplacian(us, rs, ths, phs)
+        cmp('composition', 'spherical_laplacian(spherical_laplacian u)', ops.spherical_laplacian(ls, rs, ths, phs), want, rtol=1e-8)
+        cmp('composition', 'spherical_div(spherical_grad(spherical_laplacian u))', ops.spherical_div(*ops.spherical_grad(ls, rs, ths, phs), rs, ths, phs), want, rtol=1e-8)
+        rc, pc, zc = [t.detach().clone().requires_grad_(True) for t in ops.cartesian_to_cylindrical(x.detach(), y.detach(), z.detach())]
+        uc = cart(*ops.cylindrical_to_cartesian(rc, pc, zc))
+        lc = ops.cylindrical_laplacian(uc, rc, pc, zc)
+        cmp('composition', 'cylindrical_laplacian(cylindrical_laplacian u)', ops.cylindrical_laplacian(lc, rc, pc, zc), want, rtol=1e-8)
+        cmp('composition', 'cylindrical_div(cylindrical_grad(cylindrical_laplacian u))', ops.cylindrical_div(*ops.cylindrical_grad(lc, rc, pc, zc), rc, pc, zc), want, rtol=1e-8)
+        vl = ops.cylindrical_vector_laplacian(*ops.cylindrical_vector_laplacian(*ops.cylindrical_grad(uc, rc, pc, zc), rc, pc, zc), rc, pc, zc)
+        gl = ops.cylindrical_grad(ops.cylindrical_laplacian(lc, rc, pc, zc), rc, pc, zc)      # Δ_vec Δ_vec ∇u = ∇ ΔΔu
+        for k_, (a, b) in enumerate(zip(vl, gl)):
+            if not torch.allclose(a.detach(), b.detach(), rtol=1e-7, atol=1e-9):
+                bad.append(dict(case='composition', quantity=f'cylindrical_vector_laplacian^2(grad u)[{k_}] = grad(lap lap u)[{k_}]',
+                                got=a.detach().reshape(-1).tolist(), want=b.detach().reshape(-1).tolist()))
     except Exception as e:
         bad.append(dict(case='special-point observations', error=f'{type(e).__name__}: {e}'))
     return bad
